@@ -1015,8 +1015,15 @@ namespace {
                 for ( auto& u : list )
                     if ( std::find( listed.begin(), listed.end(), u ) == listed.end() )
                         ++missing;
-                m.require( complete == ( missing == 0 ), "c14.uuids", "service UUID list ", verif::hex( body ), " is marked ", complete ? "complete" : "incomplete", " but ",
-                    missing, " of the declared UUIDs are missing" );
+                // the automatic 16 bit list may or may not count the GAP service that the server adds itself
+                const bool explicit_list = us == 2 ? db.adv_explicit16 : db.adv_explicit128;
+                bool       gap_missing   = false;
+                if ( !explicit_list && us == 2 )
+                    for ( auto& s : db.svcs )
+                        if ( s.is_gap && std::find( listed.begin(), listed.end(), s.uuid ) == listed.end() )
+                            gap_missing = true;
+                m.require( complete ? missing == 0 : ( missing != 0 || gap_missing ), "c14.uuids", "service UUID list ", verif::hex( body ), " is marked ",
+                    complete ? "complete" : "incomplete", " but ", missing, " of the declared UUIDs are missing" );
                 if ( !complete ) f_adv_trunc = true;
             }
             break;
